@@ -6,6 +6,11 @@ ALL = ["C%02d" % i for i in range(1, 21)]
 
 # id -> (level category, engine, technique, level text, level note, design ref)
 CLAIMED = {
+ "C15": ("model_checking", "E2 enumeration over data trees + E4 stream-fault enumeration",
+         "bounded exhaustive enumeration of trees x writer configurations x start selections on the real JSON writer, output decoded by encoding/json and compared with the tree; every failing byte position of the output stream enumerated",
+         "Every tree up to the size bound over three structural schemas, lists of 0..5 entries, per-type boundary alphabets over an all-types schema and nesting depths 1..70, written under all 8 Pretty/EnumAsIds/QualifyNamespace configurations from every start selection present (root, container, list, list entry, leaf, leaf-list) and through 5 entry functions; the output must decode as exactly one JSON value followed by EOF whose members, shapes, qualification and typed values equal the tree, pretty and compact must decode equal, and for every byte position k an output stream failing at k (plain and short write) must surface as an error.",
+         "trusted: encoding/json as the well-formedness oracle, harness comparison jsonCmp; RFC 7951 qualification is checked strictly only for root start selections in a single-module schema (the statement is silent for other starts)",
+         "DESIGN.md section 7 C15"),
  "C04": ("model_checking", "E2 explicit-state enumeration over data trees",
          "bounded exhaustive enumeration of data trees and per-type value alphabets, each exported through a recording node and round-tripped through the real JSON writer and reader, compared with the tree itself",
          "Every conforming tree up to the size bound over three structural schemas (containers, defaults, nested and compound-key lists, leaf-lists, flat/nested/in-list choices), lists of 0..5 entries in both key orders, and a baseline tree over an all-types schema with each of 23 leaves ranging over the full boundary alphabet of its type (strings: quotes, backslash, control characters, U+2028, non-BMP; 64-bit extremes; decimal64; bits; identityref; empty; binary; union; leaf-lists). Each tree, held by each of three source node implementations, is exported with UpsertInto into a recording reference node - the write events must be exactly the pre-order walk (once each, schema order, entries in source order, only schema defaults extra) - and written as JSON under five writer configurations, read back by the library's reader and written again (equal tree, identical text).",
